@@ -532,11 +532,11 @@ def work(task):
 def run(ctx):
     names = list(MODS)
     if ctx.quick:
-        mod_sets = [tuple(names), ('ADD-H', 'C-OX'), ('ADD-HH', 'COOH', 'BRIDGE'), ('ADD-H', 'ADD-HH', 'COOH', 'CA-S')] + \
+        mod_sets = [tuple(names), (), ('ADD-H', 'C-OX'), ('ADD-HH', 'COOH', 'BRIDGE'), ('ADD-H', 'ADD-HH', 'COOH', 'CA-S')] + \
                    [tuple(c) for c in itertools.combinations(names, 5)]
         plan = [(1, 3), (2, 2)]
     else:
-        mod_sets = [tuple(c) for r in range(1, len(names) + 1) for c in itertools.combinations(names, r)]
+        mod_sets = [tuple(c) for r in range(0, len(names) + 1) for c in itertools.combinations(names, r)]
         plan = [(1, 3), (2, 2), (3, 2)]
     ctx.bound = {'residues_and_extra_atoms': plan, 'modification_sets': len(mod_sets)}
     tasks = []
